@@ -1,6 +1,7 @@
 import Driver.Codec
 import PicoSVG.Gen.Tables
 import PicoSVG.Spec.Transform
+import PicoSVG.Model.ViewBox
 open PicoSVG Drv
 
 namespace Drv
@@ -52,6 +53,15 @@ def affineOps (C : Codec α) (eps tolEq tolDec : α) (fields : List String) : Op
   | ["rect.union", s, d] => do
       let S ← decRect C s; let D ← decRect C d
       pure (encRect C (S.union D))
+  | ["clipdecision", v, b] => do
+      let V ← decRect C v; let B ← decRect C b
+      pure (match clipDecision V B with
+        | .drop => "drop"
+        | .keep => "keep"
+        | .clip r => "clip " ++ encRect C r)
+  | "docbbox" :: rest => do
+      let l ← rest.mapM (decRect C)
+      pure (match docBBox l with | none => "none" | some r => "some " ++ encRect C r)
   | ["rect.empty", s] => do
       let S ← decRect C s
       pure (toString S.empty)
